@@ -435,3 +435,28 @@ func TestF32_ReadFailureWithScannerMessageText(t *testing.T) {
 		t.Errorf("an unknown escape in a literal is still tolerated: %v", err)
 	}
 }
+
+func TestF33_SelectOverMapWithNonStringKeysIsDeterministic(t *testing.T) {
+	m := map[any]any{}
+	mi := map[int]any{}
+	for i := 0; i < 6; i++ {
+		m[fmt.Sprintf("k%d", i)] = map[string]any{"v": i}
+		mi[i] = map[string]any{"v": i}
+	}
+	m[7] = map[string]any{"v": 7}
+	m[true] = map[string]any{"v": 8}
+	op, err := mpath.ParseString(`$.m.Select("$.v")`)
+	if err != nil {
+		t.Fatal(err)
+	}
+	for _, data := range []any{map[string]any{"m": m}, map[string]any{"m": mi}} {
+		seen := map[string]bool{}
+		for i := 0; i < 60; i++ {
+			r, err := op.Do(data, data)
+			seen[fmt.Sprint(r, err)] = true
+		}
+		if len(seen) != 1 {
+			t.Errorf("the same operation on the same data gave %d different answers", len(seen))
+		}
+	}
+}
